@@ -137,10 +137,10 @@ PROPS = {
     },
     "C18": {
         "modules": ["SifVerif.Props.C18"],
-        "theorems": ["C18_all_schedules", "C18_interleaving", "C18_write_breaks", "C18_model_queries", "C18_no_shared_writes", "C18_entries_cover"],
+        "theorems": ["C18_all_schedules", "C18_interleaving", "C18_write_breaks", "C18_model_queries", "C18_no_shared_writes", "C18_store_only_positioned_reads", "C18_store_uses_seen", "C18_entries_cover"],
         "mode": "integ", "race": True, "technique": "Lean 4 interleaving theorem (every schedule of threads whose steps only read the shared handle yields each thread's run-alone answer) + certificate regenerated from the Go source on every run (extract/effects.go: no store to shared state in any function reachable from the read-only API; checked by `decide` in Lean) + -race stress correspondence (concurrent answers on fresh handles = run-alone answers = Lean model's answers)",
         "level": "proof",
-        "level_text": "proof + regenerated certificate (partial: the Go memory model and the caller's ReaderAt are trusted): for threads whose steps may read a shared state but only change their private accumulator, under every schedule each finished thread holds exactly its run-alone result (C18_interleaving, C18_all_schedules); one storing step breaks this (C18_write_breaks, the shape of a lazily built cache); all model queries are functions of (Img, Store) and so have that shape (C18_model_queries). The premise for the Go code - no function reachable from any exported non-mutating function of pkg/sif and pkg/integrity (calls, references, closures, interface dispatch by name) stores through *FileImage/*header/*rawDescriptor, to a package-level variable, calls a pointer-receiver method on one, hands &shared to foreign code, or calls Write/Seek/Truncate on the backing store - is extracted from the current source by go/types on every run and must be the empty list (C18_no_shared_writes, C18_entries_cover for non-vacuity). Tie: harness built with -race; signed images built through the library (construction and run-alone answers compared with the Lean model), then fresh handles on both backing stores are used by 2-8 goroutines whose first access is concurrent; every answer (listings with selectors, data, held-then-drained integrity streams, Verify, AnySignedBy) must equal the run-alone answer; any race-detector report is a violation.",
+        "level_text": "proof + regenerated certificate (partial: the Go memory model and the caller's ReaderAt are trusted): for threads whose steps may read a shared state but only change their private accumulator, under every schedule each finished thread holds exactly its run-alone result (C18_interleaving, C18_all_schedules); one storing step breaks this (C18_write_breaks, the shape of a lazily built cache); all model queries are functions of (Img, Store) and so have that shape (C18_model_queries). The premise for the Go code - no function reachable from any exported non-mutating function of pkg/sif and pkg/integrity (calls, references, closures, interface dispatch by name) stores through *FileImage/*header/*rawDescriptor, to a package-level variable, calls a pointer-receiver method on one, hands &shared to foreign code, or calls Write/Seek/Truncate on the backing store, and the backing store itself (the io.ReaderAt/ReadWriter field) is used only as the receiver of ReadAt, the source of io.NewSectionReader or copied into a Descriptor, never type-asserted to a wider interface or handed elsewhere (C18_store_only_positioned_reads, C18_store_uses_seen) - is extracted from the current source by go/types on every run and must be the empty list (C18_no_shared_writes, C18_entries_cover for non-vacuity). Tie: harness built with -race; signed images built through the library (construction and run-alone answers compared with the Lean model), then fresh handles on both backing stores are used by 2-8 goroutines whose first access is concurrent, a third of the images holding an object of 32 KiB+1 to 1 MiB+4097 bytes; every answer (listings with selectors, data, held-then-drained integrity streams, Verify, AnySignedBy) must equal the run-alone answer; any race-detector report is a violation.",
         "summary": "read-only steps commute: every schedule gives each thread its run-alone answer; Go read paths perform no shared store (regenerated certificate)",
         "trusted_base": IBASE + ["extract/effects.go (go/types source importer): syntactic effect analysis without alias analysis through interfaces, reflection or unsafe; Go memory model (race-free programs are sequentially consistent); the caller-supplied ReaderAt is safe for concurrent ReadAt (true of *os.File and sif.Buffer.ReadAt, which the scan covers)"],
         "assumptions": [CORR, "the interleaving theorem models each API call as a sequence of atomic read steps; that abstraction is sound for race-free code (certificate + race detector) under the Go memory model"],
